@@ -593,12 +593,29 @@ func (s *Service) StopAndWait(ctx context.Context, pipelineID string) error {
 }
 
 // buildsNodes will build new nodes that will be assigned to the pipeline.Instance.
-func (s *Service) buildNodes(ctx context.Context, pl *pipeline.Instance) ([]stream.Node, error) {
+func (s *Service) buildNodes(ctx context.Context, pl *pipeline.Instance) (_ []stream.Node, err error) {
+	// Making a processor runnable reserves its instance (marks it running).
+	// If building the pipeline fails further down, nothing will ever run or
+	// tear down the processors built so far: release them here, otherwise the
+	// instances stay reserved and every later Start of this pipeline fails with
+	// "processor already running".
+	var built []*processor.RunnableProcessor
+	defer func() {
+		if err == nil {
+			return
+		}
+		for _, p := range built {
+			if tdErr := p.Teardown(ctx); tdErr != nil {
+				s.logger.Warn(ctx).Err(tdErr).Str(log.ProcessorIDField, p.ID).Msg("could not tear down processor of a pipeline that failed to build")
+			}
+		}
+	}()
+
 	// setup many to many channels
 	fanIn := stream.FaninNode{Name: "fanin"}
 	fanOut := stream.FanoutNode{Name: "fanout"}
 
-	sourceNodes, err := s.buildSourceNodes(ctx, pl, &fanIn)
+	sourceNodes, err := s.buildSourceNodes(ctx, pl, &fanIn, &built)
 	if err != nil {
 		return nil, cerrors.Errorf("could not build source nodes: %w", err)
 	}
@@ -606,12 +623,12 @@ func (s *Service) buildNodes(ctx context.Context, pl *pipeline.Instance) ([]stre
 		return nil, cerrors.New("can't build pipeline without any source connectors")
 	}
 
-	processorNodes, err := s.buildProcessorNodes(ctx, pl, pl.ProcessorIDs, &fanIn, &fanOut)
+	processorNodes, err := s.buildProcessorNodes(ctx, pl, pl.ProcessorIDs, &fanIn, &fanOut, &built)
 	if err != nil {
 		return nil, cerrors.Errorf("could not build processor nodes: %w", err)
 	}
 
-	destinationNodes, err := s.buildDestinationNodes(ctx, pl, &fanOut)
+	destinationNodes, err := s.buildDestinationNodes(ctx, pl, &fanOut, &built)
 	if err != nil {
 		return nil, cerrors.Errorf("could not build destination nodes: %w", err)
 	}
@@ -660,6 +677,7 @@ func (s *Service) buildProcessorNodes(
 	processorIDs []string,
 	first stream.PubNode,
 	last stream.SubNode,
+	built *[]*processor.RunnableProcessor,
 ) ([]stream.Node, error) {
 	var nodes []stream.Node
 
@@ -674,6 +692,7 @@ func (s *Service) buildProcessorNodes(
 		if err != nil {
 			return nil, err
 		}
+		*built = append(*built, runnableProc)
 
 		var node stream.PubSubNode
 		if instance.Config.Workers > 1 {
@@ -722,6 +741,7 @@ func (s *Service) buildSourceNodes(
 	ctx context.Context,
 	pl *pipeline.Instance,
 	next stream.SubNode,
+	built *[]*processor.RunnableProcessor,
 ) ([]stream.Node, error) {
 	var nodes []stream.Node
 
@@ -758,7 +778,7 @@ func (s *Service) buildSourceNodes(
 		metricsNode := s.buildMetricsNode(pl, instance)
 		metricsNode.Sub(ackerNode.Pub())
 
-		procNodes, err := s.buildProcessorNodes(ctx, pl, instance.ProcessorIDs, metricsNode, next)
+		procNodes, err := s.buildProcessorNodes(ctx, pl, instance.ProcessorIDs, metricsNode, next, built)
 		if err != nil {
 			return nil, cerrors.Errorf("could not build processor nodes for connector %s: %w", instance.ID, err)
 		}
@@ -859,6 +879,7 @@ func (s *Service) buildDestinationNodes(
 	ctx context.Context,
 	pl *pipeline.Instance,
 	prev stream.PubNode,
+	built *[]*processor.RunnableProcessor,
 ) ([]stream.Node, error) {
 	var nodes []stream.Node
 
@@ -892,7 +913,7 @@ func (s *Service) buildDestinationNodes(
 		destinationNode.Sub(metricsNode.Pub())
 		ackerNode.Sub(destinationNode.Pub())
 
-		connNodes, err := s.buildProcessorNodes(ctx, pl, instance.ProcessorIDs, prev, metricsNode)
+		connNodes, err := s.buildProcessorNodes(ctx, pl, instance.ProcessorIDs, prev, metricsNode, built)
 		if err != nil {
 			return nil, cerrors.Errorf("could not build processor nodes for connector %s: %w", instance.ID, err)
 		}
